@@ -1387,6 +1387,14 @@ def _width(ctx):
                 vs = value_set(f, v0, cfg.node_of(rets[0]))
                 v0 = vs[0][0] if len(vs) == 1 else v0
             m = match("$s.join($c)", v0)
+            if m and isinstance(m['c'], ast.Name):
+                # lines = [row.repr(..) for row in rows]; return sep.join(lines)
+                vs = value_set(f, m['c'], cfg.node_containing(v0) or cfg.node_of(rets[0]))
+                if len(vs) == 1 and isinstance(vs[0][0], (ast.GeneratorExp, ast.ListComp)) \
+                        and not [n for n in walk_no_nested(f.node) if isinstance(n, ast.Call) and isinstance(n.func, ast.Attribute)
+                                 and isinstance(n.func.value, ast.Name) and n.func.value.id == m['c'].id and n is not v0]:
+                    m = dict(m)
+                    m['c'] = vs[0][0]
         if m and isinstance(m['c'], (ast.GeneratorExp, ast.ListComp)):
             comp = m['c']
             g = comp.generators[0]
@@ -1950,16 +1958,29 @@ def _plumbing(ctx):
         """exactly one call matching pattern on every path of f -> the call node, else None (verdict recorded)"""
         hits = []
 
+        ex1, cfg1 = Expander(prog, f, ctx.typer), cfg_of(f)
+
         def classify(node, g):
-            if isinstance(node, ast.Call) and match(pattern, node):
-                hits.append(node)
-                return 'hit'
+            if isinstance(node, ast.Call) and isinstance(node.func, ast.Attribute) and g is f:
+                # the receiver may be a local alias (`row = self.__current_row; row.add_cell(..)`)
+                recv = ex1.expand(node.func.value, cfg1.node_containing(node))
+                probe = ast.Call(func=ast.Attribute(value=recv, attr=node.func.attr, ctx=ast.Load()), args=node.args, keywords=node.keywords)
+                if match(pattern, probe):
+                    hits.append(node)
+                    return 'hit'
             return None
         c = Counter(ctx, classify=classify, track_tables=False)
         em = c.summary(f, (), {})
         if '!irregular' in em:
             o.undecided(f, f.node, what, "loop left early / try around the call")
             return None
+        if not hits:
+            # nothing matched at all: only a function without any other call on self / its attributes is understood completely
+            others = [n for n in walk_no_nested(f.node) if isinstance(n, ast.Call) and isinstance(n.func, ast.Attribute)
+                      and root_name(n.func.value) == f.self_name]
+            if others:
+                o.undecided(f, others[0], what, f"{what} not found; `{src(others[0])[:70]}` may do it in a way the rule cannot follow")
+                return None
         if not _verdict(o, f, f.node, what, what, em.get('hit', {}), c_const(1)):
             return None
         return hits[0]
